@@ -98,6 +98,10 @@ def make_types(rng):
     poly = ["poly", [fnum(Fraction(1, 2)), "0"], [fnum(Fraction(3, 2)), "1"]]
     add(PT("CALP_T", ["pt", S("CALP_T"), "plain", ["int", "8", S("unsigned"), S(MSB), [poly, []]]], 8,
            lambda rng, c=None: rbits(rng, 8)))
+    # the same linear polynomial with its terms in the other order (a time type must not re-order them on a cycle)
+    polyr = ["poly", [fnum(Fraction(3, 2)), "1"], [fnum(Fraction(1, 2)), "0"]]
+    add(PT("CALPR_T", ["pt", S("CALPR_T"), "plain", ["int", "8", S("unsigned"), S(MSB), [polyr, []]]], 8,
+           lambda rng, c=None: rbits(rng, 8)))
     def knotty(rng, c=None):
         # raw values on spline knots (incl. the last one) as often as between them
         return f"{rng.choice([0, 64, 128, 255]):08b}" if rng.random() < 0.5 else rbits(rng, 8)
